@@ -498,8 +498,30 @@ func c01R15(e *Engine) {
 			direct[a.Instr] = true
 		}
 	}
-	// gapOf(g): a (success) return of g that can be reached from the entry without passing a store into Data – directly or
-	// through a core function of which the same holds. "" when there is none.
+	gapOf := e.successGap(direct)
+	n := 0
+	for _, name := range []string{"Table.Put", "Table.Update"} {
+		fn := e.fn("core", name)
+		if !e.anchor("R15", "core."+name, fn == nil) {
+			continue
+		}
+		n++
+		construct := "core." + name + ":success-implies-stored"
+		switch bad := gapOf(fn); bad {
+		case "":
+			e.pass("R15", construct, e.pos(fn.Pos()), "every success return is reached only through the store into Table.Data")
+		case "?":
+			e.undecided("R15", construct, e.pos(fn.Pos()), "no store into Table.Data found on the function's own paths or in the core functions it calls")
+		default:
+			e.fail("R15", construct, e.pos(fn.Pos()), "the success return in %s is reachable without the store into Table.Data: the operation reports success – and returns the resulting item – while a later GetItem finds the old state (on an absent key: nothing)", bad)
+		}
+	}
+}
+
+// successGap: for a set of "the store" instructions, gap(g) names a (success) return of g that can be reached from the
+// entry without passing a store – directly or through a core function of which the same holds. "" when there is none,
+// "?" when g has no store on its paths at all.
+func (e *Engine) successGap(direct map[ssa.Instruction]bool) func(g *ssa.Function) string {
 	memo := map[*ssa.Function]string{}
 	var gapOf func(g *ssa.Function, depth int) string
 	gapOf = func(g *ssa.Function, depth int) string {
@@ -550,21 +572,5 @@ func c01R15(e *Engine) {
 		memo[g] = bad
 		return bad
 	}
-	n := 0
-	for _, name := range []string{"Table.Put", "Table.Update"} {
-		fn := e.fn("core", name)
-		if !e.anchor("R15", "core."+name, fn == nil) {
-			continue
-		}
-		n++
-		construct := "core." + name + ":success-implies-stored"
-		switch bad := gapOf(fn, 0); bad {
-		case "":
-			e.pass("R15", construct, e.pos(fn.Pos()), "every success return is reached only through the store into Table.Data")
-		case "?":
-			e.undecided("R15", construct, e.pos(fn.Pos()), "no store into Table.Data found on the function's own paths or in the core functions it calls")
-		default:
-			e.fail("R15", construct, e.pos(fn.Pos()), "the success return in %s is reachable without the store into Table.Data: the operation reports success – and returns the resulting item – while a later GetItem finds the old state (on an absent key: nothing)", bad)
-		}
-	}
+	return func(g *ssa.Function) string { return gapOf(g, 0) }
 }
